@@ -1,4 +1,5 @@
 """C18 — the matplotlib artist of a region depicts the region."""
+import json
 import math
 import warnings
 from fractions import Fraction
@@ -591,7 +592,8 @@ def reassign_typed(reg, d, nt):
     elif k == 'line':
         reg.start = P(d['a']); reg.end = P(d['b'])
     elif k == 'regular_polygon':
-        pass
+        # (the vertices follow the parameters since /repo 32d7f72; the number of vertices is kept)
+        reg.center = P(d['c']); reg.radius = S(d['r']); reg.angle = ANG(d['angle'])
     else:
         raise ValueError(k)
     reg.meta.pop('include', None)
@@ -805,6 +807,275 @@ def model_region(d, reg=None):
     return j
 
 
+# ------------------------------------------------------------------ sequences of calls over a pool of regions
+
+# visual attribute -> the matplotlib property it must show up as ("visual overrides defaults"), per artist kind
+VISUAL_PROPERTY = {
+    'Patch': {'color': 'edgecolor', 'edgecolor': 'edgecolor', 'facecolor': 'facecolor', 'linewidth': 'linewidth',
+              'linestyle': 'linestyle', 'fill': 'fill'},
+    'Line2D': {'color': 'markeredgecolor', 'marker': 'marker', 'markersize': 'markersize', 'symsize': 'markersize',
+               'linewidth': 'markeredgewidth', 'markeredgewidth': 'markeredgewidth'},
+    'Text': {'color': 'color', 'fontname': 'fontname', 'font': 'fontfamily', 'fontsize': 'fontsize', 'fontstyle': 'fontstyle',
+             'fontweight': 'fontweight', 'textangle': 'rotation', 'rotation': 'rotation'},
+}
+DS9_LINES = {
+    'Patch': ['circle({x},{y},{r}) # width={lw} color={col}', 'circle({x},{y},{r}) # dash=1 width={lw}',
+              'box({x},{y},{r},{r2},30) # color={col} width={lw} font="times 14 bold italic"',
+              'ellipse({x},{y},{r},{r2},20) # fill=1 color={col}', 'annulus({x},{y},{r},{r3}) # width={lw} color={col}',
+              'polygon({x},{y},{x2},{y},{x2},{y2}) # width={lw}', 'line({x},{y},{x2},{y2}) # color={col} width={lw}'],
+    'Line2D': ['point({x},{y}) # point=x 7 color={col} width={lw}', 'point({x},{y}) # point=boxcircle color={col}',
+               'point({x},{y}) # point=diamond 9 width={lw}'],
+    'Text': ['text({x},{y}) # text={{label}} font="times 14 bold italic" color={col}',
+             'text({x},{y}) # text={{hi}} font="courier 9 normal roman" textangle=30 width={lw}',
+             'text({x},{y}) # text={{a b}} color={col}'],
+}
+
+
+def parse_ds9(line):
+    from regions import Regions
+    with warnings.catch_warnings():
+        warnings.simplefilter('ignore')
+        return Regions.parse('image\n' + line + '\n', format='ds9')[0]
+
+
+def desc_from_region(reg):
+    """description (exact floats) of a real region object (used for regions parsed from DS9 text)."""
+    n = type(reg).__name__
+    c = lambda p: [float(p.x), float(p.y)]
+    ang = lambda a: [float(a.to('deg').value), 'deg']
+    inc = 'absent'
+    if 'include' in reg.meta:
+        v = reg.meta['include']
+        inc = {True: 'true', False: 'false'}.get(v, str(v)) if isinstance(v, bool) else ('1' if v == 1 else '0')
+    d = {'include': inc}
+    if n == 'CirclePixelRegion':
+        d.update(kind='circle', c=c(reg.center), r=float(reg.radius))
+    elif n in ('EllipsePixelRegion', 'RectanglePixelRegion'):
+        d.update(kind='ellipse' if n[0] == 'E' else 'rectangle', c=c(reg.center), w=float(reg.width), h=float(reg.height), angle=ang(reg.angle))
+    elif n == 'PolygonPixelRegion':
+        d.update(kind='polygon', v=[[float(x), float(y)] for x, y in zip(reg.vertices.x, reg.vertices.y)])
+    elif n == 'CircleAnnulusPixelRegion':
+        d.update(kind='circle_annulus', c=c(reg.center), r1=float(reg.inner_radius), r2=float(reg.outer_radius))
+    elif n == 'PointPixelRegion':
+        d.update(kind='point', c=c(reg.center))
+    elif n == 'TextPixelRegion':
+        d.update(kind='text', c=c(reg.center), text=reg.text)
+    elif n == 'LinePixelRegion':
+        d.update(kind='line', a=c(reg.start), b=c(reg.end))
+    else:
+        raise ValueError(n)
+    return d
+
+
+def build_pool(case, only=None):
+    """the regions of a sequence case; entries with 'share': j use the RegionVisual OBJECT of entry j.
+    `only=i` builds entry i alone with a visual object of its own (the fresh region in isolation)."""
+    regs = {}
+    for i, e in enumerate(case['pool']):
+        if only is not None and i != only:
+            continue
+        if e['src'] == 'ds9':
+            reg = parse_ds9(e['line'])
+        else:
+            reg = build_typed(e['region'], 'pyfloat')
+            j = e.get('share')
+            src = case['pool'][j] if j is not None else e
+            if j is not None and only is None:
+                reg.visual = regs[j].visual                     # the same object
+            else:
+                reg.visual = build_visual(src.get('visual', []))
+        regs[i] = reg
+    return regs
+
+
+def style_of(art):
+    """every styling property the artist kinds have in common use, canonical and JSON-able."""
+    from matplotlib.lines import Line2D
+    from matplotlib.patches import Patch
+    from matplotlib.text import Text
+    col = lambda c: [round(float(v), 6) for v in __import__('matplotlib.colors').colors.to_rgba(c)]
+    out = {'alpha': art.get_alpha(), 'zorder': float(art.get_zorder()), 'label': str(art.get_label()), 'visible': bool(art.get_visible())}
+    if isinstance(art, Patch):
+        out.update(edgecolor=col(art.get_edgecolor()), facecolor=col(art.get_facecolor()), linewidth=float(art.get_linewidth()),
+                   linestyle=repr(art.get_linestyle()), dashes=repr(art._dash_pattern), fill=bool(art.get_fill()), hatch=art.get_hatch())
+    elif isinstance(art, Line2D):
+        out.update(color=col(art.get_color()), marker=canon_val(art.get_marker()), markersize=float(art.get_markersize()),
+                   markeredgecolor=col(art.get_markeredgecolor()), markeredgewidth=float(art.get_markeredgewidth()),
+                   markerfacecolor=repr(art.get_markerfacecolor()), fillstyle=art.get_fillstyle(), linewidth=float(art.get_linewidth()))
+    elif isinstance(art, Text):
+        out.update(color=col(art.get_color()), fontsize=float(art.get_fontsize()), fontweight=str(art.get_fontweight()),
+                   fontstyle=str(art.get_fontstyle()), fontfamily=list(art.get_fontfamily()), rotation=float(art.get_rotation()),
+                   ha=art.get_ha(), va=art.get_va(), text=art.get_text(), usetex=bool(art.get_usetex()))
+    return common_json(out)
+
+
+def style_of(art, _impl=style_of):
+    try:
+        return _impl(art)
+    except Exception as e:           # a stored value matplotlib accepted but cannot report back
+        return {'unreadable': f'{type(e).__name__}: {e}'[:120]}
+
+
+def visual_checks(art, ak, visual, caller):
+    """'visual overrides defaults': every stored visual attribute that maps to one matplotlib property, and is
+    not overridden by a caller keyword, shows up on the artist.  -> [key, property, expected, observed]"""
+    can = CANON[ak]
+    table = VISUAL_PROPERTY[ak]
+    ds9 = visual.get('default_style') == 'ds9'
+    same = lambda p: 'fontfamily' if p == 'fontname' else p          # set_fontname IS set_fontfamily
+    props = [same(table[k]) for k in visual if k in table]
+    called = {same(can.get(k, k)) for k in caller}
+    if ak == 'Patch' and 'color' in called:
+        called |= {'edgecolor', 'facecolor'}
+    out = []
+    for k, v in visual.items():
+        prop = table.get(k)
+        if prop is None or props.count(same(prop)) != 1 or same(prop) in called or v is None:
+            continue
+        if prop == 'linestyle' and not isinstance(v, str):
+            continue
+        if ds9 and isinstance(v, str) and v == 'green':
+            v = '#00ff00'
+        if prop == 'fontname':
+            exp, obs = [v], list(art.get_fontfamily())
+        elif prop == 'marker':
+            exp, obs = canon_val(v), canon_val(art.get_marker())
+        else:
+            rb = readback(art, ak, prop, v)
+            if rb is None or rb[0] == 'getter':
+                continue
+            exp, obs = rb
+        out.append([k, prop, common_json(exp), common_json(obs)])
+    return out
+
+
+def plausible(k, v):
+    """a value of the kind the attribute is meant to hold (the malformed stream is for the single-call cases)."""
+    num = lambda x: isinstance(x, (int, float)) and not isinstance(x, bool)
+    if k in ('color', 'edgecolor', 'facecolor'):
+        return isinstance(v, str) and v in COLORS
+    if k in ('linewidth', 'symsize', 'markeredgewidth', 'fontsize', 'textangle', 'rotation'):
+        return num(v)
+    if k == 'markersize':
+        return num(v) or isinstance(v, str) and v.isdigit()
+    if k == 'fill':
+        return isinstance(v, bool)
+    if k == 'linestyle':
+        return v in LINESTYLES or isinstance(v, list)
+    if k == 'marker':
+        return isinstance(v, str) and (v in ('o', 's', 'D', 'x', '+', '*') or v.startswith('ds9:'))
+    if k in ('fontname', 'font'):
+        return v in ('helvetica', 'times', 'courier', 'serif', 'monospace', 'sans-serif')
+    if k == 'fontstyle':
+        return v in ('normal', 'italic', 'oblique')
+    if k == 'fontweight':
+        return v in ('normal', 'bold', 'light')
+    if k == 'default_style':
+        return v in ('ds9', 'mpl', None)
+    return False
+
+
+def gen_sequence(rng):
+    col = lambda: rng.choice(COLORS)
+    pool = []
+    kinds = rng.sample(['Patch', 'Patch', 'Line2D', 'Text', 'Annulus'], rng.randint(2, 4))
+    if not ({'Patch', 'Annulus'} & set(kinds)):
+        kinds[0] = 'Patch'
+    shared_items = None
+    for ak in kinds:
+        a = 'Patch' if ak == 'Annulus' else ak
+        if rng.random() < 0.4:
+            fmt = dict(x=rng.randint(2, 60), y=rng.randint(2, 60), r=rng.randint(2, 9), lw=rng.choice([2, 3, 4]), col=col())
+            fmt.update(r2=fmt['r'] + rng.randint(1, 5), r3=fmt['r'] + rng.randint(1, 5), x2=fmt['x'] + rng.randint(3, 9), y2=fmt['y'] + rng.randint(3, 9))
+            lines = DS9_LINES[a] if ak != 'Annulus' else [l for l in DS9_LINES['Patch'] if l.startswith('annulus')]
+            pool.append({'src': 'ds9', 'line': rng.choice(lines).format(**fmt), 'ak': a})
+            continue
+        kind = {'Patch': rng.choice(['circle', 'ellipse', 'rectangle', 'polygon', 'regular_polygon', 'line']),
+                'Annulus': rng.choice(list(ANNULI)), 'Line2D': 'point', 'Text': 'text'}[ak]
+        d = G.gen_simple(rng, kind=kind, scale=rng.choice([1.0, 5.0]), center_scale=rng.choice([0, 10, 100]), include='absent')
+        e = {'src': 'desc', 'region': d, 'ak': a}
+        if shared_items is not None and rng.random() < 0.6:
+            e['share'] = shared_items
+        else:
+            if rng.random() < 0.5:
+                # attributes every artist kind can take: suitable for a visual object shared across kinds
+                items = [['color', col()], ['linewidth', rng.choice([2, 3, 5])]]
+                if rng.random() < 0.6:
+                    items.insert(1, ['default_style', rng.choice(['ds9', 'mpl'])])
+                if rng.random() < 0.6:
+                    items += FONT_KEYS(rng)
+                rng.shuffle(items)
+                e['visual'] = items
+                shared_items = len(pool)
+            else:
+                e['visual'] = [it for it in gen_visual(rng, a) if plausible(it[0], it[1])]
+        pool.append(e)
+    steps = []
+    for _ in range(rng.randint(2, 5)):
+        i = rng.randrange(len(pool))
+        a = pool[i]['ak']
+        d0 = pool[i].get('region') or {'kind': 'point', 'c': [10.0, 10.0]}
+        steps.append({'i': i, 'via': rng.choice(['as_artist', 'as_artist', 'plot']), 'origin': gen_origin(rng, d0),
+                      'origin_type': rng.choice(ORIGIN_TYPES), 'caller': gen_caller(rng, a, 3) if rng.random() < 0.6 else []})
+    if all(not st['caller'] for st in steps):
+        steps[0]['caller'] = gen_caller(rng, pool[steps[0]['i']]['ak'], 3)
+    return {'kind': 'sequence', 'pool': pool, 'steps': steps}
+
+
+_ISOLATION_BUDGET = 6
+
+
+def isolated_sequence(case):
+    """the observation of a sequence case in a fresh Python process (same source tree)."""
+    import os
+    import subprocess
+    import sys
+    code = ('import json, os, sys, warnings\n'
+            'sys.path.insert(0, %r)\n'
+            'if os.environ.get("REGIONS_SRC"): sys.path.insert(0, os.environ["REGIONS_SRC"])\n'
+            'import matplotlib; matplotlib.use("Agg"); warnings.simplefilter("ignore")\n'
+            'from harness import c18, common\n'
+            'case = json.loads(sys.stdin.read())\n'
+            'print("RESULT" + json.dumps(common.jsonable(c18.Check()._real_sequence(case))))\n') % os.path.dirname(os.path.dirname(os.path.abspath(__file__)))
+    try:
+        p = subprocess.run([sys.executable, '-c', code], input=json.dumps(case), capture_output=True, text=True, timeout=120)
+        for line in p.stdout.splitlines():
+            if line.startswith('RESULT'):
+                r = json.loads(line[6:])
+                r['isolated'] = True
+                return r
+    except Exception:
+        pass
+    return None
+
+
+def call_step(reg, st):
+    """one as_artist()/plot() call under the recorder -> observation of the artist."""
+    caller = {k: v for k, v in st['caller']}
+    origin = origin_arg(st)
+    rec_out = {}
+    if st['via'] == 'plot':
+        plot_axes()
+    with Recorder() as rec:
+        try:
+            if st['via'] == 'plot':
+                art = reg.plot(origin=origin, ax=plot_axes(), **caller)
+                art.remove()
+            else:
+                art = reg.as_artist(origin=origin, **caller)
+        except Exception as e:
+            return {'exc': type(e).__name__, 'exc_msg': str(e)[:160]}, None
+    rec_out['cls'] = real_class(art).__name__
+    rec_out['ctor'] = canon_ctor(*rec.log[-1]) if rec.log else None
+    rec_out['geom'] = geom_of(art)
+    rec_out['style'] = style_of(art)
+    return rec_out, art
+
+
+def d_kind(d):
+    return d['kind']
+
+
 class Check(PropertyCheck):
     id = 'C18'
     lean_targets = ['RegionsVerif.Props.C18', 'RegionsVerif.Bridge.InlineGlueC18']
@@ -828,7 +1099,12 @@ class Check(PropertyCheck):
             'half-integer / dyadic / near / far (1e6) / negative, x != y, given as tuple, list, array or numpy scalars, through '
             'as_artist() and plot(ax); coordinates, vertices and sizes given as Python float/int, numpy int64/int32/int16/uint8, '
             'float32, float64 (the model sees the exact rational); point, line, text regions x positions x origins; concentric and '
-            'non-concentric and/or/xor compounds; RegionBoundingBox.as_artist; visual dictionaries (as the DS9 reader builds them, '
+            'non-concentric and/or/xor compounds; sequences of 2-5 as_artist()/plot() calls over a pool of 2-4 regions of different '
+            'artist kinds (patch, point, text, annulus), built or parsed from DS9 text (width/font/dash/point/fill), some sharing one '
+            'RegionVisual object, with and without caller kwargs - every artist against a fresh equal region, the stored visual '
+            'attributes against the artist properties, visual dict unchanged (suspicious sequences re-evaluated in a fresh '
+            'interpreter); histories (build, use, re-parametrise in place, draw; second artist with another origin); '
+            'RegionBoundingBox.as_artist; visual dictionaries (as the DS9 reader builds them, '
             'user-built mpl-style, arbitrary valid keys) x caller kwargs incl. matplotlib aliases. Query points on a cloud scaled to '
             'the shape and at relative distances 1e-6..1e-1 from its boundary. Non-trivial = a shape case with at least one point '
             'inside and one outside the patch, or a case with caller kwargs.')
@@ -899,12 +1175,14 @@ class Check(PropertyCheck):
             if rng.random() < 0.4:
                 # history: the object was built with other (or the same) parameters, used, and re-parametrised in place
                 import copy
-                if kind == 'regular_polygon' or rng.random() < 0.3:
+                if rng.random() < 0.3:
                     pd = copy.deepcopy(d)
                 else:
                     pd = retype_desc(G.gen_simple(rng, kind=kind, scale=rng.choice([1.0, 3.0, 10.0]), center_scale=rng.choice([0, 5, 100])), nt)
                     if kind == 'text':
                         pd['text'] = 'old label'
+                    if kind == 'regular_polygon':
+                        pd['n'] = d['n']
                 uses = ['as_artist', 'plot', 'bounding_box', 'contains', 'warm']
                 case['prev'] = {'region': pd, 'visual': gen_visual(rng, ak), 'origin': gen_origin(rng, pd),
                                 'use': ['as_artist'] + rng.sample(uses, rng.randint(0, 3)),
@@ -927,6 +1205,9 @@ class Check(PropertyCheck):
         for _ in range(n3):
             ak = rng.choice(['Patch', 'Line2D', 'Text'])
             cases.append({'kind': 'kwargs', 'artist': ak, 'visual': gen_visual(rng, ak), 'caller': gen_caller(rng, ak, 4)})
+        n5 = 120 if tier == 'quick' else 3000
+        for _ in range(n5):
+            cases.append(gen_sequence(rng))
         n4 = 30 if tier == 'quick' else 500
         for _ in range(n4):
             k = rng.choice([3, 40, 10 ** 4])
@@ -947,6 +1228,17 @@ class Check(PropertyCheck):
         from regions import RegionBoundingBox, RegionVisual
         kind = case['kind']
         caller = {k: v for k, v in case.get('caller', [])}
+        if kind == 'sequence':
+            out = self._real_sequence(case)
+            # a sequence must be judged by ITS OWN history: when something looks wrong, evaluate the case again in a
+            # fresh interpreter (state left behind by other cases of this process cannot be replayed) - a few times per process
+            global _ISOLATION_BUDGET
+            if _ISOLATION_BUDGET > 0 and self.oracle(case, out):
+                _ISOLATION_BUDGET -= 1
+                iso = isolated_sequence(case)
+                if iso is not None:
+                    out = iso
+            return out
         if kind == 'kwargs':
             v = build_visual(case['visual'])
             out = {'visual': canon_kw(v), 'define': canon_kw(v.define_mpl_kwargs(case['artist']))}
@@ -1054,6 +1346,34 @@ class Check(PropertyCheck):
                 out['spec'].append([bool(ins), float(mg)])
         return out
 
+    def _real_sequence(self, case):
+        regs = build_pool(case)
+        out = {'pool': [], 'steps': []}
+        for i in sorted(regs):
+            out['pool'].append({'desc': desc_from_region(regs[i]) if case['pool'][i]['src'] == 'ds9' else case['pool'][i]['region'],
+                                'visual': canon_kw(regs[i].visual), 'cls': type(regs[i]).__name__})
+        for st in case['steps']:
+            reg = regs[st['i']]
+            ak = case['pool'][st['i']]['ak']
+            vis0 = canon_kw(reg.visual)
+            snap0 = snapshot(reg)
+            visual_plain = dict(reg.visual)
+            o, art = call_step(reg, st)
+            o['visual_unchanged'] = canon_kw(reg.visual) == vis0
+            o['region_unchanged'] = snapshot(reg) == snap0
+            caller = {k: v for k, v in st['caller']}
+            if art is not None:
+                if d_kind(out['pool'][st['i']]['desc']) == 'line':
+                    caller = dict(caller, width=caller.get('width', 0.1))
+                o['getters'] = self._getters(art, ak, caller)
+                o['visual_checks'] = visual_checks(art, ak, visual_plain, caller)
+            # the same call on a FRESH equal region built in isolation
+            fresh = build_pool(case, only=st['i'])[st['i']]
+            f, _ = call_step(fresh, st)
+            o['fresh'] = f
+            out['steps'].append(o)
+        return out
+
     @staticmethod
     def _spec(d, x, y):
         """exact membership in the SHAPE (include flag ignored) and relative margin."""
@@ -1099,6 +1419,22 @@ class Check(PropertyCheck):
             return [{'op': 'c18.kwargs', 'artist': case['artist'], 'visual': canon_kw(v), 'caller': cv(case['caller'])}]
         if kind == 'bbox':
             return [{'op': 'c18.bbox', 'box': case['box']}]
+        if kind == 'sequence':
+            regs = build_pool(case)
+            reqs = []
+            for st in case['steps']:
+                reg = regs[st['i']]
+                e = case['pool'][st['i']]
+                d = desc_from_region(reg) if e['src'] == 'ds9' else e['region']
+                req = {'op': 'c18.artist', 'region': model_region(d, reg), 'origin': [frac(F(st['origin'][0])), frac(F(st['origin'][1]))],
+                       'visual': canon_kw(reg.visual), 'caller': cv(st['caller']), 'text_normalize': text_normalizes()}
+                comps = component_descs(d)
+                if comps:
+                    o = (float(st['origin'][0]), float(st['origin'][1]))
+                    req['inner_path'] = mpl_component_path(comps[0], o)
+                    req['outer_path'] = mpl_component_path(comps[1], o)
+                reqs.append(req)
+            return reqs
         d = case['region']
         reg = build_region(case)
         req = {'op': 'c18.artist', 'region': model_region(d, reg), 'origin': [frac(F(case['origin'][0])), frac(F(case['origin'][1]))],
@@ -1121,7 +1457,7 @@ class Check(PropertyCheck):
         return [req]
 
     def model(self, case, replies):
-        return replies[0]
+        return list(replies) if case['kind'] == 'sequence' else replies[0]
 
     @staticmethod
     def _tol(case):
@@ -1174,6 +1510,23 @@ class Check(PropertyCheck):
         if model is None or 'fail' in model:
             return False
         kind = case['kind']
+        if kind == 'sequence':
+            if len(model) != len(real['steps']):
+                return False
+            for st, o, m in zip(case['steps'], real['steps'], model):
+                if 'fail' in m:
+                    return False
+                if 'exc' in o or 'exc' in m or 'kw_exc' in m:
+                    if 'exc' in o and 'exc' not in m and 'kw_exc' not in m and 'exc' not in o['fresh']:
+                        return False          # only THIS object's call failed
+                    continue                  # matplotlib rejections are not modelled
+                ctor = o['ctor']
+                pc = {'kind': 'shape', 'region': real['pool'][st['i']]['desc'], 'origin': st['origin'], 'numtype': 'pyfloat'}
+                if ctor is None or ctor['name'] != m['kind'] or not self._args_equal(pc, ctor['args'], m['args'], m['kind']):
+                    return False
+                if ctor['kw'] != m['kw']:
+                    return False
+            return True
         if kind == 'kwargs':
             return real['define'] == model['define'] and real['final_by_hand'] == model['final']
         if kind == 'bbox':
@@ -1332,8 +1685,53 @@ class Check(PropertyCheck):
         icls = int_class(case) if kind == 'shape' else None
 
         def bad(k, detail, **kw):
-            ctx = {x: case[x] for x in ('region', 'numtype', 'origin', 'origin2', 'origin_type', 'via', 'prev', 'visual', 'caller', 'artist', 'box') if x in case}
+            ctx = {x: case[x] for x in ('pool', 'steps', 'region', 'numtype', 'origin', 'origin2', 'origin_type', 'via', 'prev', 'visual', 'caller', 'artist', 'box') if x in case}
             V.append(dict(kind=k, detail=f'{detail} :: {ctx}', int_class=icls, **kw))
+        if kind == 'sequence':
+            for n, (st, o) in enumerate(zip(case['steps'], real['steps'])):
+                e = case['pool'][st['i']]
+                who = f'step {n} ({st["via"]} on pool[{st["i"]}] {real["pool"][st["i"]]["cls"]}, caller={st["caller"]})'
+                if not o.get('visual_unchanged', True):
+                    bad('visual_changed_by_drawing', f'{who}: the region\'s visual dictionary differs after the call')
+                elif not o.get('region_unchanged', True):
+                    bad('region_changed_by_drawing', f'{who}: parameters / meta of the region differ after the call')
+                f = o['fresh']
+                if 'exc' in o:
+                    if 'exc' not in f:
+                        bad('artist_depends_on_call_history', f'{who} raised {o["exc"]}: {o.get("exc_msg")}; the same call on a fresh '
+                            f'equal region succeeds')
+                    continue
+                if 'exc' in f:
+                    bad('artist_depends_on_call_history', f'{who} succeeded but the same call on a fresh equal region raises {f["exc"]}')
+                    continue
+                diffs = []
+                if o['cls'] != f['cls']:
+                    diffs.append(f'class {o["cls"]} vs {f["cls"]}')
+                if o['ctor'] != f['ctor']:
+                    ko, kf = dict(map(lambda kv: (kv[0], json.dumps(kv[1])), (o['ctor'] or {}).get('kw', []))), \
+                        dict(map(lambda kv: (kv[0], json.dumps(kv[1])), (f['ctor'] or {}).get('kw', [])))
+                    dk = sorted(k for k in set(ko) | set(kf) if ko.get(k) != kf.get(k))
+                    diffs.append('constructor keywords ' + ', '.join(f'{k}: {ko.get(k)} vs fresh {kf.get(k)}' for k in dk[:4])
+                                 if dk else 'constructor arguments differ')
+                if o['geom'] != f['geom']:
+                    diffs.append('geometry differs')
+                for k in o['style']:
+                    if o['style'][k] != f['style'].get(k):
+                        diffs.append(f'{k}: {o["style"][k]!r} vs fresh {f["style"].get(k)!r}')
+                if diffs:
+                    bad('artist_depends_on_call_history', f'{who}: the artist differs from the artist of a fresh equal region given the '
+                        f'same call: ' + '; '.join(diffs[:5]))
+                for k, exp, obs in o.get('getters', []):
+                    if exp != 'getter' and exp != obs:
+                        can = CANON.get(e['ak'], {})
+                        defined = [k2 for k2, _ in (o['ctor'] or {}).get('kw', []) if k2 != k and can.get(k2, k2) == can.get(k, k)]
+                        bad('caller_kwarg_not_honoured', f'{who}: {k}: expected {exp!r}, artist has {obs!r}', key=k, artist=e['ak'],
+                            alias_of=defined[0] if defined else None)
+                for k, prop, exp, obs in o.get('visual_checks', []):
+                    if exp != obs:
+                        bad('visual_attribute_not_honoured', f'{who}: visual[{k!r}] must show as {prop}={exp!r}, artist has {obs!r}; '
+                            f'visual={real["pool"][st["i"]]["visual"]}', key=k)
+            return V
         if kind == 'kwargs':
             # first principles: defaults <| visual <| caller, per key
             fin = {k: v for k, v in real['final_by_hand']}
@@ -1510,6 +1908,8 @@ class Check(PropertyCheck):
         return False
 
     def nontrivial(self, case, real):
+        if case['kind'] == 'sequence':
+            return any('exc' not in o for o in real['steps'])
         if case['kind'] in ('kwargs', 'bbox'):
             return bool(case.get('caller'))
         w = real.get('winding')
@@ -1522,6 +1922,8 @@ class Check(PropertyCheck):
             return f"kwargs/{case['artist']}"
         if case['kind'] == 'bbox':
             return 'bbox'
+        if case['kind'] == 'sequence':
+            return f"sequence/{len(case['steps'])} calls/{'shared visual' if any('share' in e for e in case['pool']) else 'own visuals'}"
         b = f"{case['kind']}/{case['region']['kind']}"
         if 'exc' in real:
             alone = real.get('alone', {})
